@@ -354,6 +354,10 @@ class SimThread:
 
     def join(self, timeout=None):
         k = self.kernel
+        if not self.started:
+            raise RuntimeError('cannot join thread before it is started')
+        if k.current is self:
+            raise RuntimeError('cannot join current thread')
         k.yield_point('thread.join')
         while self.state != 'done':
             if k.current is None:
